@@ -15,6 +15,7 @@
     hangup_only_after_teardown
 -/
 import EmitModel.Lemmas.BatcherCover
+import EmitModel.Model.OtlpE2E
 
 namespace EmitModel.C07
 open EmitModel.Batcher EmitModel.Sched
@@ -148,5 +149,26 @@ example : ∃ s, Reachable (Cfg.real 4) s ∧ 7 ∉ s.fired ∧ s.rx.ws = [7] :=
 
 example : waitTimeout 100 false [⟨false, false, 30⟩, ⟨true, false, 20⟩] = some true := by decide
 example : waitTimeout 100 false [⟨false, false, 30⟩, ⟨false, true, 70⟩] = some false := by decide
+
+end EmitModel.C07
+
+/-! ### Carry-through to the OTLP emitter (stream `c07_otlp`) -/
+namespace EmitModel.C07
+open EmitModel.OtlpE2E
+
+/-- **OTLP flush waits on every configured signal.** `Otlp::blocking_flush` reports success iff every configured
+    signal's channel flush does — whatever the other signals' results, in particular a healthy later signal
+    cannot mask an earlier one that still has a request in flight or waiting to be retried. -/
+theorem otlp_flush_true_iff (l t m : SigState) :
+    otlpFlush l t m = true ↔ ∀ s ∈ [l, t, m], s.configured = true → s.busy = false := by
+  cases l <;> cases t <;> cases m <;> decide
+
+/-- A request parked at the collector (or waiting in a retry back-off) on any configured signal makes the flush
+    report `false` — also with a zero timeout. -/
+theorem otlp_flush_false_if_busy (l t m : SigState) (s : SigState) (hs : s ∈ [l, t, m])
+    (hc : s.configured = true) (hb : s.busy = true) : otlpFlush l t m = false := by
+  cases h : otlpFlush l t m with
+  | false => rfl
+  | true => have := (otlp_flush_true_iff l t m).mp h s hs hc; simp [hb] at this
 
 end EmitModel.C07
